@@ -22,6 +22,10 @@ def programs(ctx, rng, kind, nops, pool):
     raise ValueError(kind)
 
 
+def t_of(label):
+    return next((t for t in ("12", "16", "32") if t in label[:8]), "12")
+
+
 def scripted_programs(bpc):
     """targeted histories (minimised past disagreements and boundary shapes), run before the random programs"""
     f83 = [f"/D/F{i:02d}.TXT" for i in range(15)]
@@ -67,7 +71,11 @@ def run_histories(ctx, oracles, nprog, nops, kind="namespace", vol_filter=None, 
                 img, meta = built[label]
                 bpc = fatspec.Volume(img, force_ft=history.force_ft(meta)).bpc
                 progs = scripted_programs(bpc)
-                for si in ([vi % len(progs)] if ctx.tier == "quick" else range(len(progs))):
+                # quick tier: every scripted program runs on every FAT type at least once (the volumes of one type share the programs)
+                ftype = next((t for t in ("12", "16", "32") if t in label[:8]), "12")
+                same = [l for l, _ in vols if l not in ("build32-high", "build32-real", "mkfs32") and t_of(l) == ftype]
+                j = same.index(label)
+                for si in ([k for k in range(len(progs)) if k % len(same) == j] if ctx.tier == "quick" else range(len(progs))):
                     mnt = dict(mounts[(vi + si) % len(mounts)])
                     case = history.Case(label, img, progs[si] + ([["closefs"]] if add_close else []), mount=mnt, meta=meta)
                     history.run_case(ctx, case, oracles=oracles, model=m, use_model=use_model, remount_every=remount_every)
